@@ -1,8 +1,10 @@
 import NfcVerif.Gen.FnDepPdu
 import NfcVerif.Model.NfcDep
 import NfcVerif.Model.Activate
+import NfcVerif.Model.FnDepPduRef
 import NfcVerif.Lemmas.PeerDep
 import NfcVerif.Lemmas.FnBridgeBase
+import NfcVerif.Lemmas.FnBridgeDep
 /-!
 Helper lemmas for `Props/FnBridgeDepPdu.lean` (PDU classes and activation arithmetic of `nfc/dep.py`).
 -/
@@ -106,5 +108,42 @@ theorem delSlice_zero_nat {α} (l : List α) (n : Nat) : delSlice l 0 (n : Int) 
 
 /-- the two code octets `PDU_CODE` of a PDU class: `D4 xx` for requests, `D5 xx` for responses -/
 def code (req : Bool) (k : Nat) : Bytes := [if req then 0xD4 else 0xD5, if req then k else k + 1]
+
+open NfcVerif.NfcDep in
+/-- the tuple of constructor arguments returned by the regenerated `DEP_REQ_RES.decode` as the model's PDU (None:
+`decode` did not recognise the code octets, the caller's first attribute access raises) -/
+def depOfRec (r : Option ((Int × Bool × Bool × Int) × Option Int × Option Int × Bytes)) : Py Pdu :=
+  match r with
+  | none => .error .attr
+  | some ((fmt, _, _, pni), did, nad, data) =>
+    .ok (.dep fmt.toNat pni.toNat (did.map Int.toNat) (nad.map Int.toNat) data)
+
+
+open NfcVerif.NfcDep in
+/-- `return eval(name + "_REQ"|"_RES").decode(frame)` with the regenerated `decode` class methods; hand-written remain
+the table lookup (`KeyError` for an unknown code) and `PSL_REQ_RES.decode` (`cls(*data[2:])`, not translatable).
+`decode` returning None (code octets of another class) shows up as `AttributeError` at the first use. -/
+def genTail (req : Bool) (f2 : Bytes) : Py Pdu :=
+  match f2 with
+  | _ :: c1 :: d =>
+    if req then
+      if c1 = 0 then Gen.Fn.dep_atr_req_decode f2 >>= fun r => match r with | none => .error .attr | some _ => .ok (.atr d)
+      else if c1 = 4 then (if d.length ≠ 3 then .error .protocol else .ok (.psl d))
+      else if c1 = 6 then Gen.Fn.dep_dep_req_decode f2 >>= depOfRec
+      else if c1 = 8 then Gen.Fn.dep_dsl_req_decode f2 >>= fun r =>
+        match r with | none => .error .attr | some did => .ok (.dsl (did.map Int.toNat))
+      else if c1 = 10 then Gen.Fn.dep_rls_req_decode f2 >>= fun r =>
+        match r with | none => .error .attr | some did => .ok (.rls (did.map Int.toNat))
+      else .error .key
+    else
+      if c1 = 1 then Gen.Fn.dep_atr_res_decode f2 >>= fun r => match r with | none => .error .attr | some _ => .ok (.atr d)
+      else if c1 = 5 then (if d.length ≠ 1 then .error .protocol else .ok (.psl d))
+      else if c1 = 7 then Gen.Fn.dep_dep_res_decode f2 >>= depOfRec
+      else if c1 = 9 then Gen.Fn.dep_dsl_res_decode f2 >>= fun r =>
+        match r with | none => .error .attr | some did => .ok (.dsl (did.map Int.toNat))
+      else if c1 = 11 then Gen.Fn.dep_rls_res_decode f2 >>= fun r =>
+        match r with | none => .error .attr | some did => .ok (.rls (did.map Int.toNat))
+      else .error .key
+  | _ => .error .index
 
 end NfcVerif.FnBridge.DepPdu
